@@ -6,7 +6,7 @@ calls are answered and not forwarded; a broadcast reaches exactly the
 connections holding a matching rule.
 """
 from mcx import core, explore, fakes, refcodec as R
-from mcx.checks import c12
+from mcx.checks import c12, c13
 
 PROP = 'C14'
 WELL = 'com.ex.W'
@@ -44,7 +44,9 @@ TEMPLATES = [
 
 
 class W:
-    pass
+    @property
+    def owner(self):
+        return self.names.owner[WELL]
 
 
 class RouteScenario(explore.Scenario):
@@ -56,8 +58,7 @@ class RouteScenario(explore.Scenario):
         w.peers = [w.bw.connect() for _ in range(3)]
         w.uniq = [p.name for p in w.peers]
         w.alive = [True, True, True]
-        w.owner = None
-        w.queue_owner = []            # waiting for WELL (model)
+        w.names = c13.Model(3, [WELL])  # reference name table (see C13)
         w.rules = {1: set(), 2: set()}
         w.queues = {0: [], 1: []}     # outbound, not yet consumed by the bus
         w.partial = {0: False, 1: False}
@@ -91,6 +92,12 @@ class RouteScenario(explore.Scenario):
                 continue
             if w.owner != c:
                 evs.append(('own', c))
+                if w.owner is not None and c not in w.names.waiters[WELL] \
+                        and self.params.get('waiters'):
+                    evs.append(('wait', c))
+            if self.params.get('waiters') and (
+                    w.owner == c or c in w.names.waiters[WELL]):
+                evs.append(('release', c))
             for ri in range(len(RULES)):
                 evs.append(('rmmatch', c, ri) if ri in w.rules[c]
                            else ('addmatch', c, ri))
@@ -174,17 +181,43 @@ class RouteScenario(explore.Scenario):
                 w.peers[c].send_raw(raw)
                 got, bad = self._drain(w)
                 return bad + self._check_delivery(w, meta, got)
-            if kind == 'own':
+            if kind in ('own', 'wait'):
                 c = ev[1]
-                s = w.peers[c].call_bus('RequestName', 'su', [WELL, 3])
+                flags = 3 if kind == 'own' else 0
+                want, acq, lost, replaced = w.names.request(c, WELL, flags)
+                s = w.peers[c].call_bus('RequestName', 'su', [WELL, flags])
                 got, bad = self._drain(w)
                 rep = [m for m in got[c]
                        if m['fields'].get('reply_serial') == s]
-                if len(rep) != 1 or rep[0]['body'] != [1]:
-                    bad.append(('%s/own' % PROP,
-                                'RequestName(allow+replace) answered %r'
-                                % [(m['type'], m['body']) for m in rep]))
-                w.owner = c
+                if len(rep) != 1 or rep[0]['body'] != [want]:
+                    bad.append(('%s/%s' % (PROP, kind),
+                                'RequestName(flags %d) answered %r, expected '
+                                '%d' % (flags, [(m['type'], m['body'])
+                                                for m in rep], want)))
+                if replaced is not None:
+                    # whether a replaced owner waits is open: adopt it
+                    s2 = w.peers[c].call_bus('ListQueuedOwners', 's', [WELL])
+                    got2, bad2 = self._drain(w)
+                    q = [m['body'][0] for m in got2[c]
+                         if m['fields'].get('reply_serial') == s2
+                         and m['type'] == 2]
+                    if q and w.uniq[replaced] in q[0][1:]:
+                        pos = q[0].index(w.uniq[replaced]) - 1
+                        w.names.waiters[WELL].insert(pos, replaced)
+                        w.names.allow[WELL][replaced] = None
+                return bad
+            if kind == 'release':
+                c = ev[1]
+                want, acq = w.names.release(c, WELL)
+                s = w.peers[c].call_bus('ReleaseName', 's', [WELL])
+                got, bad = self._drain(w)
+                rep = [m for m in got[c]
+                       if m['fields'].get('reply_serial') == s]
+                if len(rep) != 1 or rep[0]['body'] != [want]:
+                    bad.append(('%s/release' % PROP,
+                                'ReleaseName answered %r, expected %d'
+                                % ([(m['type'], m['body']) for m in rep],
+                                   want)))
                 return bad
             if kind in ('addmatch', 'rmmatch'):
                 c, ri = ev[1], ev[2]
@@ -211,9 +244,8 @@ class RouteScenario(explore.Scenario):
             if kind == 'disc':
                 c = ev[1]
                 w.alive[c] = False
+                w.names.disconnect(c)
                 w.peers[c].disconnect()
-                if w.owner == c:
-                    w.owner = None
                 w.rules[c] = set()
                 got, bad = self._drain(w)
                 return bad
@@ -334,7 +366,7 @@ class RouteScenario(explore.Scenario):
              for n, ql in bus.busNames.items()},
             sorted(bus.clients), len(bus.router._rules)
             if hasattr(bus.router, '_rules') else None)
-        return (tuple(w.alive), w.owner,
+        return (tuple(w.alive), w.names.key(),
                 tuple(sorted((c, tuple(sorted(r)))
                              for c, r in w.rules.items())), q, impl)
 
@@ -426,8 +458,8 @@ def run(ctx):
         'unique name / the bus / none; sender field absent, forged as '
         'another client, or the true name; flag bits) into its outbound '
         'queue; the bus consumes the head of a queue whole or (one '
-        'deviation) only a prefix first; clients 1/2 take over the '
-        'well-known name, add/remove 2 match rules, client 2 disconnects. At '
+        'deviation) only a prefix first; clients 1/2 take over, queue for and '
+        'release the well-known name, add/remove 2 match rules, client 2 disconnects. At '
         'each consumption the messages arriving at every client are parsed '
         'by the strict reference parser and compared with the reference bus '
         '(recipient by ownership at consumption time, exactly once, content '
@@ -453,6 +485,11 @@ def run(ctx):
                          'senders': [0, 1]},
                         max_depth=4, max_dev=1,
                         label='routing: 2 senders, 2 queued, depth 4')
+        explore.explore(ctx, RouteScenario,
+                        {'templates': [1, 3], 'max_queue': 1, 'senders': [0],
+                         'waiters': True},
+                        max_depth=5, max_dev=0,
+                        label='routing to a queued-for name, depth 5')
         explore.explore(ctx, NameScenario, {}, max_depth=5,
                         label='unique names, depth 5')
     else:
@@ -466,6 +503,12 @@ def run(ctx):
                          'senders': [0, 1]},
                         max_depth=6, max_dev=2,
                         label='routing: 2 senders, 3 queued, depth 6',
+                        max_states=200000)
+        explore.explore(ctx, RouteScenario,
+                        {'templates': [1, 3, 5], 'max_queue': 1,
+                         'senders': [0], 'waiters': True},
+                        max_depth=7, max_dev=1,
+                        label='routing to a queued-for name, depth 7',
                         max_states=200000)
         explore.explore(ctx, NameScenario, {}, max_depth=7,
                         label='unique names, depth 7')
